@@ -102,8 +102,12 @@ func Exp(ctx *expr.Context, input system.Collection, args ...expr.Expression) (s
 	}
 	// Exp number
 	res := math.Pow(math.E, number)
-	result := system.MustParseDecimal(fmt.Sprintf("%v", res))
-	return system.Collection{result}, nil
+	// The result does not fit a float64 (e.g. 1000.exp()): no value to return
+	if math.IsNaN(res) || math.IsInf(res, 0) {
+		return system.Collection{}, nil
+	}
+	result := decimal.NewFromFloat(res)
+	return system.Collection{system.Decimal(result)}, nil
 }
 
 // Floor returns the first integer less than or equal to the input.
@@ -144,8 +148,8 @@ func Ln(ctx *expr.Context, input system.Collection, args ...expr.Expression) (sy
 		return nil, err
 	}
 	res := math.Log(number)
-	// Validating NaN case
-	if math.IsNaN(res) {
+	// Validating NaN case (negative input) and -Inf (zero input)
+	if math.IsNaN(res) || math.IsInf(res, 0) {
 		return system.Collection{}, nil
 	}
 	// Type conversion to system.Decimal
@@ -203,6 +207,9 @@ func Power(ctx *expr.Context, input system.Collection, args ...expr.Expression) 
 	if err != nil {
 		return nil, err
 	}
+	if argValues.IsEmpty() {
+		return system.Collection{}, nil
+	}
 	// Validating integers case
 	_, ok := input[0].(system.Integer)
 	_, ok2 := argValues[0].(system.Integer)
@@ -233,8 +240,8 @@ func Power(ctx *expr.Context, input system.Collection, args ...expr.Expression) 
 	}
 	// Powering number
 	res := math.Pow(number, exp)
-	// Validating NaN case
-	if math.IsNaN(res) {
+	// Validating NaN case and results that do not fit a float64
+	if math.IsNaN(res) || math.IsInf(res, 0) {
 		return system.Collection{}, nil
 	}
 	// Type conversion to system.Decimal
@@ -360,7 +367,9 @@ func powInt32(base, exp int32) int32 {
 	}
 
 	result := base
-	for i := int32(2); i <= exp; i++ {
+	// counts exp-1 multiplications; a strict comparison so that the loop
+	// terminates for exp == math.MaxInt32 as well
+	for i := int32(1); i < exp; i++ {
 		result *= base
 	}
 	return result
